@@ -123,8 +123,12 @@ def run(ctx):
     try:
         n_cases = 150 if ctx.tier == "quick" else 2500
         sizes = [1, 2, 3, 5, 8, 13] if ctx.tier == "quick" else [1, 2, 5, 12, 30, 80]
-        for i in range(n_cases):
-            m = glencoe_model(g, g.rng.choice(sizes))
+        def models():
+            for i in range(n_cases):
+                yield glencoe_model(g, g.rng.choice(sizes))
+            yield from gen.nest_models(gen.LOGICAL, chunk=4)
+            yield from gen.case_twin_models()
+        for m in models():
             req = sx.dumps(tag("glencoe_write", spec.fm_sx(m)))
             mrep = ctx.model.call_raw(req)
             st, ret, data, after, path = impl_write(sc, m, GlencoeWriter, "gfm.json")
